@@ -103,10 +103,14 @@ func txView(tx *bt.Tx) (v Ev) {
 
 // ---- the calls ---------------------------------------------------------------------------
 
-// wrapClaim returns ceil(j*2^64/k)+t for a random item size k in 2..100, 0 < j < k, t in {0, 1}:
+// wrapClaim returns ceil(j*2^64/k)+t for an item size k in 2..100, 0 < j < k, t in {0, 1}:
 // k*claim overflows 64 bits and lands on a value below 2k.
+var wrapCounter int
+
 func wrapClaim(rng *rand.Rand) uint64 {
-	k := uint64(2 + rng.Intn(99))
+	// the item size k runs through 2..100 in turn, so that every size is probed whatever the seed
+	wrapCounter++
+	k := uint64(2 + wrapCounter%99)
 	j := uint64(1 + rng.Intn(int(k-1)))
 	two64 := new(big.Int).Lsh(big.NewInt(1), 64)
 	q := new(big.Int).Mul(two64, new(big.Int).SetUint64(j))
